@@ -1,5 +1,6 @@
 import Enc.Lemmas.Proto
 import Enc.Model.ProtoTo
+import Enc.Lemmas.ProtoTo
 /-!
 # C16 — proto.MarshalTo honours the caller's buffer for every size
 Property theorems only. `encodeTo … avail` is the model of the buffer-checked encoders (Enc/Model/ProtoTo.lean).
@@ -18,5 +19,39 @@ theorem encodeVarintTo_spec (avail : Nat) (v : BitVec 64) :
 /-- the encoding that MarshalTo writes when it succeeds has exactly Size(v) bytes -/
 theorem marshal_len (t : Ty) (v : Val) : (marshal t v).length = marshalSize t v :=
   Lemmas.Proto.size_eq _ _ _
+
+/-- **Main theorem of C16.** For every codec tree (message type), value, flag combination and EVERY buffer length
+`avail`: the buffer-checked encoder succeeds exactly when `avail ≥ Size`, then writes exactly the bytes of `Marshal`;
+otherwise it returns `io.ErrShortBuffer` — and it never panics. -/
+theorem encodeTo_spec (c : Codec) (v : Val) (fl : Flags) (avail : Nat) :
+    encodeTo c v fl avail = if size c v fl ≤ avail then .ok (encode c v fl) else .err "shortBuffer" :=
+  Lemmas.ProtoTo.encodeTo_spec c v fl avail
+
+/-- MarshalTo(b, v) with len(b) ≥ Size(v): the encoding of Marshal(v), of exactly Size(v) bytes -/
+theorem marshalTo_enough (t : Ty) (v : Val) (avail : Nat) (h : marshalSize t v ≤ avail) :
+    marshalTo t v avail = .ok (marshal t v) ∧ (marshal t v).length = marshalSize t v := by
+  refine ⟨?_, Lemmas.Proto.size_eq _ _ _⟩
+  unfold marshalTo marshal
+  rw [Lemmas.ProtoTo.encodeTo_spec]
+  simp only [marshalSize] at h
+  simp [h]
+
+/-- every shorter buffer — every length from 0 to Size(v)-1 — gives io.ErrShortBuffer (an error, not a panic) -/
+theorem marshalTo_short (t : Ty) (v : Val) (avail : Nat) (h : avail < marshalSize t v) :
+    marshalTo t v avail = .err "shortBuffer" := by
+  unfold marshalTo
+  rw [Lemmas.ProtoTo.encodeTo_spec]
+  simp only [marshalSize] at h
+  have : ¬ size (codecOf t) v { toplevel := true, inline := true } ≤ avail := by omega
+  simp [this]
+
+/-- non-vacuity: a value with Size 6, tried with 5 and 6 bytes -/
+example : (encodeTo (.struct (.cons 1 false false false .int32 (.cons 2 false true false (.slice .bool 2 .varint false) .nil)))
+    (.struct (.cons (.int 5) (.cons (.list (.cons (.bool false) (.cons (.bool true) .nil))) .nil))) {} 5 = .err "shortBuffer")
+  ∧ (encodeTo (.struct (.cons 1 false false false .int32 (.cons 2 false true false (.slice .bool 2 .varint false) .nil)))
+    (.struct (.cons (.int 5) (.cons (.list (.cons (.bool false) (.cons (.bool true) .nil))) .nil))) {} 6
+      = .ok [0x08, 0x05, 0x10, 0x00, 0x10, 0x01]) := by
+  rw [Lemmas.ProtoTo.encodeTo_spec, Lemmas.ProtoTo.encodeTo_spec]
+  decide +kernel
 
 end Enc.Props.C16
